@@ -188,12 +188,12 @@ theorem exprOnce_iff (t : List Char) :
     · rintro ⟨_, _, ⟨rfl, rfl⟩, hb⟩; exact hb
 
 /-- core of C13_expression_verbatim -/
-theorem render_verbatim (tpl stateDir name excluded : List Char) (detached : Bool)
-    (h : exprOnce (substOthers tpl stateDir name excluded detached) = true) :
+theorem render_verbatim (tpl stateDir name excluded envNames : List Char) (detached : Bool)
+    (h : exprOnce (substOthers tpl stateDir name excluded envNames detached) = true) :
     ∃ pre post : List Char,
-      substOthers tpl stateDir name excluded detached = pre ++ PH_EXPR ++ post ∧
+      substOthers tpl stateDir name excluded envNames detached = pre ++ PH_EXPR ++ post ∧
       ¬ PH_EXPR <:+: post ∧
-      ∀ expr : List Char, render tpl stateDir name excluded detached expr = pre ++ expr ++ post := by
+      ∀ expr : List Char, render tpl stateDir name excluded envNames detached expr = pre ++ expr ++ post := by
   obtain ⟨pre, post, h1, h2⟩ := (exprOnce_iff _).1 h
   refine ⟨pre, post, splitFirst_sound _ _ _ _ h1, (splitFirst_none_iff _ _).1 h2, ?_⟩
   intro expr
